@@ -5,8 +5,6 @@ import (
 	"errors"
 )
 
-var encodeIndent = 0
-
 type asn1Object interface {
 	EncodeTo(writer *bytes.Buffer) error
 	// encodedLen is the number of bytes EncodeTo writes
@@ -24,17 +22,14 @@ func (s asn1Structured) encodedLen() int {
 }
 
 func (s asn1Structured) EncodeTo(out *bytes.Buffer) error {
-	//fmt.Printf("%s--> tag: % X\n", strings.Repeat("| ", encodeIndent), s.tagBytes)
 	out.Write(s.tagBytes)
 	encodeLength(out, s.length)
-	encodeIndent++
 	for _, obj := range s.content {
 		err := obj.EncodeTo(out)
 		if err != nil {
 			return err
 		}
 	}
-	encodeIndent--
 	return nil
 }
 
@@ -56,8 +51,6 @@ func (p asn1Primitive) EncodeTo(out *bytes.Buffer) error {
 	if err = encodeLength(out, p.length); err != nil {
 		return err
 	}
-	//fmt.Printf("%s--> tag: % X length: %d\n", strings.Repeat("| ", encodeIndent), p.tagBytes, p.length)
-	//fmt.Printf("%s--> content length: %d\n", strings.Repeat("| ", encodeIndent), len(p.content))
 	out.Write(p.content)
 
 	return nil
